@@ -6,7 +6,7 @@ from collections import Counter
 from .. import coqenc as E
 from ..passes import Case, run_passes
 from ..runner import jval
-from ..valgen import Gen, copy_value
+from ..valgen import Gen, copy_value, share_equal
 from ..condgen import CondGen
 from ..pathgen import PathGen
 from ..rulegen import RuleGen
@@ -100,6 +100,14 @@ def run(tier, seed, model_ok, spec_ok, replay=None):
         raw = pg.path(doc, max_len=3, mods_p=0.4)
         three = [copy.deepcopy(p) for p in raw.parts if sum(1 for a in (getattr(p, "kw", None) or {}).values() if a is not None) > 2]
         pt = normalise_path(limit_parts(raw))
+        if g.r.random() < 0.12 and any(not isinstance(p, Prim) for p in pt.parts):
+            # the same part twice (in a spec: possibly the very same mapping object, as a YAML alias gives)
+            pt.parts.append(copy.deepcopy(g.r.choice([p for p in pt.parts if not isinstance(p, Prim)])))
+        aliased = g.r.random() < 0.5
+
+        def fresh(x):
+            """The spec as the implementation receives it: a private copy, half of the time with equal sub-specs being one object."""
+            return share_equal(copy.deepcopy(x)) if aliased else copy.deepcopy(x)
         for part in pt.parts:
             for ca in (getattr(part, "kw", None) or {}).values():
                 if ca is not None and not ca.is_lit:
@@ -132,11 +140,11 @@ def run(tier, seed, model_ok, spec_ok, replay=None):
             if ps is None:
                 continue
             out = add("part", f"(run_part_from_spec {E.enc_val(ps)})",
-                      lambda ps=ps: describe_part(v.datapath.ContainerValue.from_spec(copy.deepcopy(ps))), {"spec": jval(ps)})
+                      lambda ps=ps: describe_part(v.datapath.ContainerValue.from_spec(fresh(ps))), {"spec": jval(ps)})
             if out and out[0] == "ok":
                 try:
                     api = part.build()
-                    parsed = v.datapath.ContainerValue.from_spec(copy.deepcopy(ps))
+                    parsed = v.datapath.ContainerValue.from_spec(fresh(ps))
                     if not (parsed == api):
                         direct.append({"kind": "direct", "what": "part spec does not build an object equal to the API-built part",
                                        "spec": jval(ps), "api": part.descr()[:300]})
@@ -146,11 +154,11 @@ def run(tier, seed, model_ok, spec_ok, replay=None):
         spec = sg.path_spec(pt)
         if spec is not None:
             out = add("path", f"(run_path_from_spec {E.enc_val(spec)})",
-                      lambda spec=spec: ("path", describe_path(v.DataPath.from_spec(copy.deepcopy(spec)))), {"spec": jval(spec)})
+                      lambda spec=spec: ("path", describe_path(v.DataPath.from_spec(fresh(spec)))), {"spec": jval(spec)})
             if out and out[0] == "ok":
                 try:
                     api = pt.build()
-                    parsed = v.DataPath.from_spec(copy.deepcopy(spec))
+                    parsed = v.DataPath.from_spec(fresh(spec))
                     if not (parsed == api):
                         direct.append({"kind": "direct", "what": "path spec does not build a path equal to the API-built one",
                                        "spec": jval(spec), "api": pt.descr()[:300]})
@@ -164,7 +172,7 @@ def run(tier, seed, model_ok, spec_ok, replay=None):
                     pass
             parts = list(spec.values())[0]
             add("part_specs", f"(run_from_part_specs {E.enc_val(parts)[6:-1] if False else '[' + '; '.join(E.enc_val(x) for x in parts) + ']'})",
-                lambda parts=parts: describe_path(v.DataPath.from_part_specs(*copy.deepcopy(parts))), {"spec": jval(parts)})
+                lambda parts=parts: describe_path(v.DataPath.from_part_specs(*fresh(parts))), {"spec": jval(parts)})
         # ---- path strings
         if i % 3 == 0:
             toks = [g.r.choice(TOKENS) for _ in range(g.r.randint(0, 3))]
@@ -201,13 +209,13 @@ def run(tier, seed, model_ok, spec_ok, replay=None):
                     rs["doc"] = {"examples": ["e"]}
 
                 def impl_rule(rs=rs):
-                    r = v.Rule.from_spec(copy.deepcopy(rs))
+                    r = v.Rule.from_spec(fresh(rs))
                     return (describe_rule(r), r.cast is not None, r.doc)
                 out = add("rule", f"(run_rule_from_spec {E.enc_val(rs)})", impl_rule, {"spec": jval(rs)})
                 if out and out[0] == "ok":
                     try:
                         api = rt.build()
-                        parsed = v.Rule.from_spec(copy.deepcopy(rs))
+                        parsed = v.Rule.from_spec(fresh(rs))
                         if not (parsed == api):
                             direct.append({"kind": "direct", "what": "rule spec does not build a rule equal to the API-built one",
                                            "spec": jval(rs), "api": rt.descr()[:300]})
@@ -216,7 +224,7 @@ def run(tier, seed, model_ok, spec_ok, replay=None):
                         y = YAML(typ="safe")
                         buf = io.StringIO()
                         try:
-                            y.dump({"rules": [rs]}, buf)
+                            y.dump(fresh({"rules": [rs]}), buf)
                             dumped = True
                         except Exception:
                             dumped = False
